@@ -55,6 +55,49 @@ type Case struct {
 	Workers  int   `json:"workers"`
 	Validate bool  `json:"validate"`
 	Order    []int `json:"order"` // completion order choices for gated cache writes
+	// Dev: the notifications come from a device model behind one of the real targets (nil = harness-fed script)
+	Dev *DevCase `json:"dev,omitempty"`
+}
+
+// DevCase: the real NETCONF target (fake driver answering get-config from a device configuration) or the real gNMI
+// target (in-process gNMI server over bufconn) feeds the real sync loop; the device configuration changes in rounds.
+type DevChange struct {
+	Updates []UpdSel `json:"updates,omitempty"`
+	Deletes []DelSel `json:"deletes,omitempty"`
+}
+
+type DevCase struct {
+	Kind    string      `json:"kind"` // netconf | gnmi-get | gnmi-stream
+	Enc     string      `json:"enc"`  // gNMI sync encoding: json | json_ietf | proto | ascii
+	Blobs   bool        `json:"blobs,omitempty"`
+	Chunk   int         `json:"chunk,omitempty"`
+	NS      bool        `json:"ns,omitempty"` // netconf include-ns
+	Initial []UpdSel    `json:"initial"`
+	Rounds  []DevChange `json:"rounds"`
+}
+
+func genDev(t *rapid.T) *DevCase {
+	d := &DevCase{Kind: rapid.SampledFrom([]string{"netconf", "gnmi-get", "gnmi-stream", "gnmi-stream"}).Draw(t, "dev-kind")}
+	d.Enc = rapid.SampledFrom([]string{"json", "json_ietf", "proto", "ascii"}).Draw(t, "dev-enc")
+	d.Blobs = rapid.Bool().Draw(t, "dev-blobs")
+	d.Chunk = rapid.SampledFrom([]int{0, 0, 1, 2, 5}).Draw(t, "dev-chunk")
+	d.NS = rapid.Bool().Draw(t, "dev-ns")
+	sel := func(label string, min, max int) []UpdSel {
+		var r []UpdSel
+		for _, ls := range vlib.GenLeafSels(t, uni, min, max, label) {
+			r = append(r, UpdSel{Leaf: ls, Form: "typed"})
+		}
+		return r
+	}
+	d.Initial = sel("dev-init", 0, 8)
+	for i, n := 0, rapid.IntRange(1, 3).Draw(t, "dev-rounds"); i < n; i++ {
+		ch := DevChange{Updates: sel("dev-upd", 0, 3)}
+		for j, nd := 0, rapid.IntRange(0, 2).Draw(t, "dev-nd"); j < nd; j++ {
+			ch.Deletes = append(ch.Deletes, DelSel{Leaf: vlib.GenLeafSels(t, uni, 1, 1, "dev-del")[0], Level: rapid.IntRange(0, 2).Draw(t, "dev-lvl")})
+		}
+		d.Rounds = append(d.Rounds, ch)
+	}
+	return d
 }
 
 func genMsgs(t *rapid.T) []Msg {
@@ -130,7 +173,12 @@ var prop = vlib.Prop[*Case]{
 		"oracle = after the script is drained and all writers returned (hook H4 + prune counters) CONFIG and STATE equal the sequential sync model: per path the latest notification wins, deletes are structural, paths absent from a completed cycle are gone, state leaves live in STATE when validation is on; " +
 		"non-trivial = the script deletes a name that is a textual prefix of another stored name, or two in-flight notifications touch the same path, or a cycle omits a stored path; distinct = distinct case JSON",
 	Gen: func(t *rapid.T) *Case {
-		c := &Case{Script: genMsgs(t)}
+		c := &Case{}
+		if rapid.IntRange(0, 7).Draw(t, "device-backed") == 3 || os.Getenv("VERIF_C13_DEV") != "" {
+			c.Dev = genDev(t)
+		} else {
+			c.Script = genMsgs(t)
+		}
 		c.Workers = rapid.SampledFrom([]int{1, 1, 2, 16}).Draw(t, "workers")
 		c.Validate = rapid.Bool().Draw(t, "validate")
 		for i := 0; i < 24; i++ {
@@ -262,9 +310,9 @@ func (m *syncModel) apply(dn denot) {
 		m.strict[k] = true
 	}
 	for _, d := range dn.del {
-		// with validation on the delete goes to the store the path's schema node belongs to
-		st := m.storeOf(d)
-		st.ApplyDelete(d)
+		// the device no longer has the subtree: config and state leaves below it are gone, whichever store holds them
+		m.cfg.ApplyDelete(d)
+		m.st.ApplyDelete(d)
 	}
 	keys := make([]string, 0, len(dn.upd))
 	for k := range dn.upd {
@@ -311,6 +359,9 @@ func (m *syncModel) end() {
 }
 
 func Exec(c *Case) (nontrivial bool, labels []string, fail *vlib.Failure) {
+	if c.Dev != nil {
+		return ExecDev(c)
+	}
 	ctx, cancel := context.WithCancel(context.Background())
 	defer cancel()
 	env := vlib.MustEnv()
